@@ -48,7 +48,7 @@ known("KF7-unbuffered-negative-cycle-decision-differs", ["C04"],
       "on programs whose ground dependency graph has a cycle through negation (C02 class 'either'), unbuffered modes and the default engine take different accept/reject decisions (checkCycle on re-entry of an active goal is order dependent)",
       "test/negative_cycle.pl: default raises NegativeCycle, StackBasedEngine(unbuffered=True) answers 0.86",
       match_any=[{"clause": "mode-dependent", "variant": v, "error": "NegativeCycle", "site": "engine_stack.py:checkCycle", "cyclic": True}
-                 for v in UNB])
+                 for v in UNB] + [{"clause": "answered-negative-cycle", "variant": v, "cyclic": True} for v in UNB])
 
 known("KF8-keep-all-not-neutral", ["C06"],
       "keep_all=True is not semantics-neutral: deterministic facts are kept as atoms with probability None whose positive and negative weights are both one, so unnormalised results are multiplied (P = 2.0); combined with propagate_weights, Semiring.value(None) raises TypeError; DDNNF set_evidence raises TypeError on such atoms",
